@@ -38,35 +38,25 @@ Proof.
   change (key_valid (with_remote cf rem) k) with (key_valid cf k). rewrite IH. reflexivity.
 Qed.
 
-(** every entry was fetched from its own url, for its own kid, in some past world, and passed getKey's checks *)
-Definition cache_inv (v : bool) (past : list kenv) (c : kcache) : Prop :=
+(** what getKey yields without a cache in world [env] *)
+Definition key_result (cf : config) (env : kenv) (url kid : string) : err + jwk :=
+  match fetch env url with
+  | inl e => inl e
+  | inr ks => match get_key cf ks kid with None => inl EKey | Some k => inr k end
+  end.
+
+(** every entry was fetched from its own url, for its own kid, in some past world; and, as long as the cached
+    key is not re-validated (no fix for C05-F4), it passed the certificate check under the settings [v] *)
+Definition cache_inv (f4 v : bool) (past : list kenv) (c : kcache) : Prop :=
   forall url kid k, cache_find c url kid = Some k ->
     exists env ks, In env past /\ fetch env url = inr ks /\
       filter (fun k' => String.eqb (k_kid k') kid) ks = [k] /\
-      (negb v || negb (cert_bad (k_cert k))) = true.
+      (f4 = false -> (negb v || negb (cert_bad (k_cert k))) = true).
 
-Lemma cache_inv_mono v past past' c :
-  (forall e, In e past -> In e past') -> cache_inv v past c -> cache_inv v past' c.
+Lemma cache_inv_mono f4 v past past' c :
+  (forall e, In e past -> In e past') -> cache_inv f4 v past c -> cache_inv f4 v past' c.
 Proof.
   intros Hsub H url kid k Hf. destruct (H url kid k Hf) as (env & ks & Hin & R). exists env, ks. split; [auto|exact R].
-Qed.
-
-Lemma fetch_published s t env ks :
-  s_cred s = CToken t -> fetch env (url_of (s_templated s) t) = inr ks -> published s env = (RUp, ks).
-Proof.
-  unfold fetch, published. intros -> H.
-  destruct (env_find env _) as [[[] ks']|]; try discriminate. injection H as ->. reflexivity.
-Qed.
-
-Lemma fetch_published_err s t env e :
-  s_cred s = CToken t -> fetch env (url_of (s_templated s) t) = inl e ->
-  exists rem ks, published s env = (rem, ks) /\
-    match rem with RUp => False | RDown | RStatus => e = EComm | RGarbage => e = EJwks end.
-Proof.
-  unfold fetch, published. intros -> H.
-  destruct (env_find env _) as [[rem ks']|].
-  - destruct rem; try discriminate; injection H as <-; eexists _, ks'; split; reflexivity.
-  - injection H as <-. exists RStatus, []. split; reflexivity.
 Qed.
 
 Lemma get_key_some cf ks kid k :
@@ -78,117 +68,175 @@ Proof.
   - intros [E V]. injection E as ->. rewrite V. reflexivity.
 Qed.
 
+Lemma fetch_fill_ok f4 v s url kid c past :
+  (f4 = false -> cf_validate_jwk (s_cf s) = v) ->
+  cache_inv f4 v (s_env s :: past) c ->
+  let '(r, c') := fetch_fill s url kid c in
+  cache_inv f4 v (s_env s :: past) c' /\ r = key_result (s_cf s) (s_env s) url kid.
+Proof.
+  intros Hv Hinv. unfold fetch_fill, key_result.
+  destruct (fetch (s_env s) url) as [e|ks] eqn:Hf; [split; [exact Hinv|reflexivity]|].
+  destruct (get_key (s_cf s) ks kid) as [k|] eqn:Hg; [|split; [exact Hinv|reflexivity]].
+  split; [|reflexivity].
+  destruct (s_cache_on s); [|exact Hinv].
+  intros url' kid' k' Hf'. simpl in Hf'.
+  destruct (String.eqb url url' && String.eqb kid kid') eqn:E.
+  - injection Hf' as <-. apply andb_true_iff in E as [E1 E2]. apply String.eqb_eq in E1, E2. subst url' kid'.
+    apply get_key_some in Hg as [Hfil Hval]. exists (s_env s), ks.
+    split; [left; reflexivity|]. split; [exact Hf|]. split; [exact Hfil|].
+    intro F. unfold key_valid in Hval. rewrite (Hv F) in Hval. exact Hval.
+  - apply Hinv. exact Hf'.
+Qed.
+
+(** getKey with the cache: the invariant is kept, and the answer is the cache-less answer in a world of the
+    past at the same url and kid (the present world if the cache is off for this request) *)
+Lemma get_key_c_ok f4 v s url kid c past :
+  (f4 = false -> cf_validate_jwk (s_cf s) = v) ->
+  cache_inv f4 v past c ->
+  let '(r, c') := get_key_c f4 s url kid c in
+  cache_inv f4 v (s_env s :: past) c' /\
+  exists env, In env (s_env s :: past) /\ (s_cache_on s = false -> env = s_env s) /\
+              r = key_result (s_cf s) env url kid.
+Proof.
+  intros Hv Hinv.
+  assert (cache_inv f4 v (s_env s :: past) c) as Hinv' by (eapply cache_inv_mono; [|exact Hinv]; intros; right; assumption).
+  pose proof (fetch_fill_ok f4 v s url kid c past Hv Hinv') as FF.
+  unfold get_key_c.
+  destruct (s_cache_on s) eqn:Hon.
+  - destruct (cache_find c url kid) as [k|] eqn:Hfind.
+    + destruct (negb f4 || key_valid (s_cf s) k) eqn:Hok.
+      * split; [exact Hinv'|].
+        destruct (Hinv _ _ _ Hfind) as (env & ks & Hin & Hfetch & Hfil & Hval).
+        exists env. split; [right; exact Hin|]. split; [discriminate|].
+        unfold key_result. rewrite Hfetch.
+        assert (get_key (s_cf s) ks kid = Some k) as ->; [|reflexivity].
+        apply get_key_some. split; [exact Hfil|].
+        destruct f4; simpl in Hok; [exact Hok|].
+        unfold key_valid. rewrite (Hv eq_refl). apply Hval. reflexivity.
+      * destruct (fetch_fill s url kid c) as [r c']. destruct FF as [I R]. split; [exact I|].
+        exists (s_env s). split; [left; reflexivity|]. split; [reflexivity|exact R].
+    + destruct (fetch_fill s url kid c) as [r c']. destruct FF as [I R]. split; [exact I|].
+      exists (s_env s). split; [left; reflexivity|]. split; [reflexivity|exact R].
+  - destruct (fetch_fill s url kid c) as [r c']. destruct FF as [I R]. split; [exact I|].
+    exists (s_env s). split; [left; reflexivity|]. split; [reflexivity|exact R].
+Qed.
+
+Lemma published_fetch s t env :
+  s_cred s = CToken t ->
+  match fetch env (url_of (s_templated s) t) with
+  | inr ks => published s env = (RUp, ks)
+  | inl e => exists rem ks, published s env = (rem, ks) /\
+               match rem with RUp => False | RDown | RStatus => e = EComm | RGarbage => e = EJwks end
+  end.
+Proof.
+  unfold fetch, published. intros ->.
+  destruct (env_find env _) as [[rem ks']|].
+  - destruct rem; try reflexivity; eexists _, ks'; split; reflexivity.
+  - exists RStatus, []. split; reflexivity.
+Qed.
+
+(** the cache-less authenticator on a parseable token with a JSON-object payload, in terms of [key_result] *)
+Lemma stateless_token f1 f2 s t env :
+  s_cred s = CToken t -> mem (t_alg t) supported_algs = true -> t_payload_obj t = true ->
+  stateless f1 f2 s env =
+  let cf := s_cf s in
+  let url := url_of (s_templated s) t in
+  if String.eqb (t_kid t) ""
+  then match fetch env url with
+       | inl er => Failed er
+       | inr ks => finish cf t (if verify_without_kid f1 f2 cf (effective cf) (s_now s) t ks then None else Some ENoneOfKeys)
+       end
+  else match key_result cf env url (t_kid t) with
+       | inl er => Failed er
+       | inr k => finish cf t (verify_with_key f1 f2 (effective cf) (s_now s) t k)
+       end.
+Proof.
+  intros Hc Hsup Hobj. unfold stateless, key_result. pose proof (published_fetch s t env Hc) as P.
+  destruct (fetch env (url_of (s_templated s) t)) as [er|ks].
+  - destruct P as (rem & ks & -> & Hrem). rewrite Hc.
+    unfold authenticate_gen, verify_token. rewrite Hsup, Hobj. cbn [negb].
+    destruct rem; try contradiction; subst; destruct (String.eqb (t_kid t) ""); reflexivity.
+  - rewrite P, Hc. unfold authenticate_gen, verify_token, finish, subject_id. rewrite Hsup, Hobj. cbn [negb].
+    change (cf_remote (with_remote (s_cf s) RUp)) with RUp. cbv iota.
+    rewrite effective_with_remote, verify_without_kid_with_remote.
+    change (get_key (with_remote (s_cf s) RUp) ks (t_kid t)) with (get_key (s_cf s) ks (t_kid t)).
+    change (cf_id_from (with_remote (s_cf s) RUp)) with (cf_id_from (s_cf s)).
+    destruct (String.eqb (t_kid t) "").
+    + destruct (verify_without_kid _ _ _ _ _ _ _); reflexivity.
+    + destruct (get_key (s_cf s) ks (t_kid t)) as [k|]; [|reflexivity].
+      destruct (verify_with_key _ _ _ _ _ _); reflexivity.
+Qed.
+
 (** one request: the invariant is kept and the answer is a cache-less answer against a world of the past
     (the present one when the request cannot be served from the cache) *)
-Lemma step_c_stateless f1 f2 v s c past :
-  cf_validate_jwk (s_cf s) = v ->
-  cache_inv v past c ->
-  let '(r, c') := step_c f1 f2 s c in
-  cache_inv v (s_env s :: past) c' /\
+Lemma step_c_stateless f1 f2 f4 v s c past :
+  (f4 = false -> cf_validate_jwk (s_cf s) = v) ->
+  cache_inv f4 v past c ->
+  let '(r, c') := step_c f1 f2 f4 s c in
+  cache_inv f4 v (s_env s :: past) c' /\
   (exists env, In env (s_env s :: past) /\ (fresh s = true -> env = s_env s) /\ r = stateless f1 f2 s env).
 Proof.
   intros Hv Hinv.
-  assert (cache_inv v (s_env s :: past) c) as Hinv' by (eapply cache_inv_mono; [|exact Hinv]; intros; right; assumption).
-  unfold step_c, stateless, fresh.
+  assert (cache_inv f4 v (s_env s :: past) c) as Hinv' by (eapply cache_inv_mono; [|exact Hinv]; intros; right; assumption).
+  unfold step_c, fresh.
   destruct (s_cred s) as [| |t] eqn:Hc.
   - split; [exact Hinv'|]. exists (s_env s). split; [left; reflexivity|]. split; [reflexivity|].
-    unfold published. rewrite Hc. reflexivity.
+    unfold stateless, published. rewrite Hc. reflexivity.
   - split; [exact Hinv'|]. exists (s_env s). split; [left; reflexivity|]. split; [reflexivity|].
-    unfold published. rewrite Hc. reflexivity.
+    unfold stateless, published. rewrite Hc. reflexivity.
   - destruct (mem (t_alg t) supported_algs) eqn:Hsup; cbn [negb].
     2:{ split; [exact Hinv'|]. exists (s_env s). split; [left; reflexivity|]. split; [reflexivity|].
-        destruct (published s (s_env s)) as [rem ks]. unfold authenticate_gen. rewrite Hsup. reflexivity. }
+        unfold stateless. destruct (published s (s_env s)) as [rem ks]. rewrite Hc. unfold authenticate_gen. rewrite Hsup. reflexivity. }
     destruct (t_payload_obj t) eqn:Hobj; cbn [negb].
     2:{ split; [exact Hinv'|]. exists (s_env s). split; [left; reflexivity|]. split; [reflexivity|].
-        destruct (published s (s_env s)) as [rem ks]. unfold authenticate_gen, verify_token. rewrite Hsup, Hobj. reflexivity. }
+        unfold stateless. destruct (published s (s_env s)) as [rem ks]. rewrite Hc.
+        unfold authenticate_gen, verify_token. rewrite Hsup, Hobj. reflexivity. }
     destruct (String.eqb (t_kid t) "") eqn:Hkid.
-    + (* no kid: always fetched *)
-      destruct (fetch (s_env s) (url_of (s_templated s) t)) as [er|ks] eqn:Hf.
-      * split; [exact Hinv'|]. exists (s_env s). split; [left; reflexivity|]. split; [reflexivity|].
-        destruct (fetch_published_err s t _ _ Hc Hf) as (rem & ks & -> & Hrem).
-        unfold authenticate_gen, verify_token. rewrite Hsup, Hobj. simpl.
-        destruct rem; try contradiction; subst; reflexivity.
-      * split; [exact Hinv'|]. exists (s_env s). split; [left; reflexivity|]. split; [reflexivity|].
-        rewrite (fetch_published s t _ _ Hc Hf).
-        unfold authenticate_gen, verify_token, finish, subject_id. rewrite Hsup, Hobj, Hkid. simpl.
-        rewrite verify_without_kid_with_remote, effective_with_remote.
-        destruct (verify_without_kid _ _ _ _ _ _ _); reflexivity.
-    + unfold get_key_c.
-      destruct (s_cache_on s) eqn:Hon; cbv beta iota.
-      * destruct (cache_find c (url_of (s_templated s) t) (t_kid t)) as [k|] eqn:Hfind.
-        -- (* served from the cache *)
-           split; [exact Hinv'|].
-           destruct (Hinv _ _ _ Hfind) as (env & ks & Hin & Hfetch & Hfil & Hval).
-           exists env. split; [right; exact Hin|]. split; [discriminate|].
-           rewrite (fetch_published s t _ _ Hc Hfetch).
-           unfold authenticate_gen, verify_token, finish, subject_id. rewrite Hsup, Hobj, Hkid. simpl.
-           assert (get_key (with_remote (s_cf s) RUp) ks (t_kid t) = Some k) as ->.
-           { apply get_key_some. split; [exact Hfil|]. unfold key_valid. simpl. rewrite Hv. exact Hval. }
-           destruct (verify_with_key _ _ _ _ _ _); reflexivity.
-        -- destruct (fetch (s_env s) (url_of (s_templated s) t)) as [er|ks] eqn:Hf.
-           ++ split; [exact Hinv'|]. exists (s_env s). split; [left; reflexivity|]. split; [reflexivity|].
-              destruct (fetch_published_err s t _ _ Hc Hf) as (rem & ks & -> & Hrem).
-              unfold authenticate_gen, verify_token. rewrite Hsup, Hobj. simpl.
-              destruct rem; try contradiction; subst; reflexivity.
-           ++ destruct (get_key (s_cf s) ks (t_kid t)) as [k|] eqn:Hg.
-              ** split.
-                 { intros url kid k' Hf'. simpl in Hf'.
-                   destruct (String.eqb (url_of (s_templated s) t) url && String.eqb (t_kid t) kid) eqn:E.
-                   - injection Hf' as <-. apply andb_true_iff in E as [E1 E2].
-                     apply String.eqb_eq in E1, E2. subst url kid.
-                     apply get_key_some in Hg as [Hfil Hval]. exists (s_env s), ks.
-                     split; [left; reflexivity|]. split; [exact Hf|]. split; [exact Hfil|].
-                     unfold key_valid in Hval. rewrite Hv in Hval. exact Hval.
-                   - apply Hinv'. exact Hf'. }
-                 exists (s_env s). split; [left; reflexivity|]. split; [reflexivity|].
-                 rewrite (fetch_published s t _ _ Hc Hf).
-                 unfold authenticate_gen, verify_token, finish, subject_id. rewrite Hsup, Hobj, Hkid. simpl.
-                 assert (get_key (with_remote (s_cf s) RUp) ks (t_kid t) = Some k) as -> by exact Hg.
-                 destruct (verify_with_key _ _ _ _ _ _); reflexivity.
-              ** split; [exact Hinv'|]. exists (s_env s). split; [left; reflexivity|]. split; [reflexivity|].
-                 rewrite (fetch_published s t _ _ Hc Hf).
-                 unfold authenticate_gen, verify_token. rewrite Hsup, Hobj, Hkid. simpl.
-                 assert (get_key (with_remote (s_cf s) RUp) ks (t_kid t) = None) as -> by exact Hg. reflexivity.
-      * (* cache disabled for this request *)
-        destruct (fetch (s_env s) (url_of (s_templated s) t)) as [er|ks] eqn:Hf.
-        -- split; [exact Hinv'|]. exists (s_env s). split; [left; reflexivity|]. split; [reflexivity|].
-           destruct (fetch_published_err s t _ _ Hc Hf) as (rem & ks & -> & Hrem).
-           unfold authenticate_gen, verify_token. rewrite Hsup, Hobj. simpl.
-           destruct rem; try contradiction; subst; reflexivity.
-        -- destruct (get_key (s_cf s) ks (t_kid t)) as [k|] eqn:Hg; cbv beta iota.
-           ++ split; [exact Hinv'|]. exists (s_env s). split; [left; reflexivity|]. split; [reflexivity|].
-              rewrite (fetch_published s t _ _ Hc Hf).
-              unfold authenticate_gen, verify_token, finish, subject_id. rewrite Hsup, Hobj, Hkid. simpl.
-              assert (get_key (with_remote (s_cf s) RUp) ks (t_kid t) = Some k) as -> by exact Hg.
-              destruct (verify_with_key _ _ _ _ _ _); reflexivity.
-           ++ split; [exact Hinv'|]. exists (s_env s). split; [left; reflexivity|]. split; [reflexivity|].
-              rewrite (fetch_published s t _ _ Hc Hf).
-              unfold authenticate_gen, verify_token. rewrite Hsup, Hobj, Hkid. simpl.
-              assert (get_key (with_remote (s_cf s) RUp) ks (t_kid t) = None) as -> by exact Hg. reflexivity.
+    + pose proof (stateless_token f1 f2 s t (s_env s) Hc Hsup Hobj) as St. cbv zeta in St. rewrite Hkid in St.
+      destruct (fetch (s_env s) (url_of (s_templated s) t)) as [er|ks];
+        (split; [exact Hinv'|]; exists (s_env s); split; [left; reflexivity|]; split; [reflexivity|symmetry; exact St]).
+    + pose proof (get_key_c_ok f4 v s (url_of (s_templated s) t) (t_kid t) c past Hv Hinv) as G.
+      destruct (get_key_c f4 s (url_of (s_templated s) t) (t_kid t) c) as [r c'].
+      destruct G as [I (env & Hin & Hoff & ->)].
+      assert (stateless f1 f2 s env =
+              match key_result (s_cf s) env (url_of (s_templated s) t) (t_kid t) with
+              | inl er => Failed er
+              | inr k => finish (s_cf s) t (verify_with_key f1 f2 (effective (s_cf s)) (s_now s) t k)
+              end) as St.
+      { rewrite (stateless_token f1 f2 s t env Hc Hsup Hobj). cbv zeta. rewrite Hkid. reflexivity. }
+      destruct (key_result (s_cf s) env (url_of (s_templated s) t) (t_kid t)) as [er|k].
+      * split; [exact I|]. exists env. split; [exact Hin|]. split; [|symmetry; exact St].
+        intro F. apply Hoff. apply orb_true_iff in F as [F|F]; [apply negb_true_iff; exact F | discriminate].
+      * split; [exact I|]. exists env. split; [exact Hin|]. split; [|symmetry; exact St].
+        intro F. apply Hoff. apply orb_true_iff in F as [F|F]; [apply negb_true_iff; exact F | discriminate].
 Qed.
 
 (* ------------------------------------------------------------------ histories *)
 
-Lemma run_c_stateless f1 f2 v : forall h c past,
-  (forall s, In s h -> cf_validate_jwk (s_cf s) = v) ->
-  cache_inv v past c ->
+(** the validate_jwk setting is the same for all requests of the history *)
+Definition uniform_validation (v : bool) (h : list kstep) : Prop :=
+  forall s, In s h -> cf_validate_jwk (s_cf s) = v.
+
+Lemma run_c_stateless f1 f2 f4 v : forall h c past,
+  (f4 = false -> uniform_validation v h) ->
+  cache_inv f4 v past c ->
   forall pre s post, h = pre ++ s :: post ->
-  forall r, nth_error (fst (run_c f1 f2 h c)) (length pre) = Some r ->
+  forall r, nth_error (fst (run_c f1 f2 f4 h c)) (length pre) = Some r ->
   exists env, (In env (s_env s :: map s_env pre) \/ In env past) /\ (fresh s = true -> env = s_env s) /\
               r = stateless f1 f2 s env.
 Proof.
   induction h as [|s0 h IH]; intros c past Hv Hinv pre s post E r Hr.
   - destruct pre; discriminate.
   - simpl in Hr.
-    pose proof (step_c_stateless f1 f2 v s0 c past (Hv s0 (or_introl eq_refl)) Hinv) as St.
-    destruct (step_c f1 f2 s0 c) as [x c'] eqn:Es. destruct St as [Hinv' (env & Hin & Hfr & Hx)].
-    destruct (run_c f1 f2 h c') as [xs c''] eqn:Er. simpl in Hr.
+    pose proof (step_c_stateless f1 f2 f4 v s0 c past (fun F => Hv F s0 (or_introl eq_refl)) Hinv) as St.
+    destruct (step_c f1 f2 f4 s0 c) as [x c'] eqn:Es. destruct St as [Hinv' (env & Hin & Hfr & Hx)].
+    destruct (run_c f1 f2 f4 h c') as [xs c''] eqn:Er. simpl in Hr.
     destruct pre as [|p pre]; simpl in *.
     + injection E as -> ->. injection Hr as <-. exists env. split; [|split; assumption].
       destruct Hin as [<-|Hin]; [left; left; reflexivity | right; exact Hin].
     + injection E as -> ->.
-      assert (nth_error (fst (run_c f1 f2 (pre ++ s :: post) c')) (length pre) = Some r) as Hr' by (rewrite Er; exact Hr).
-      destruct (IH c' (s_env p :: past) (fun s' H => Hv s' (or_intror H)) Hinv' pre s post eq_refl r Hr')
+      assert (nth_error (fst (run_c f1 f2 f4 (pre ++ s :: post) c')) (length pre) = Some r) as Hr' by (rewrite Er; exact Hr).
+      destruct (IH c' (s_env p :: past) (fun F s' H => Hv F s' (or_intror H)) Hinv' pre s post eq_refl r Hr')
         as (env' & Hin' & Hfr' & Hr'').
       exists env'. split; [|split; assumption].
       destruct Hin' as [[<-|Hin']|[<-|Hin']].
@@ -201,30 +249,103 @@ Qed.
 (** the worlds request number [length pre] of a history may be judged against *)
 Definition worlds (pre : list kstep) (s : kstep) : list kenv := s_env s :: map s_env pre.
 
-(** MAIN: every answer of a history is the cache-less authenticator's answer against the key set that is
-    or was published at the rendered key-set URL of the request's OWN token (so a key cached for one
-    url/kid is never used for another), the present one if the request cannot be served from the cache *)
-Theorem history_stateless f1 f2 v h pre s post r :
-  (forall s', In s' h -> cf_validate_jwk (s_cf s') = v) ->
-  h = pre ++ s :: post ->
-  nth_error (run_history f1 f2 h) (length pre) = Some r ->
+(** the statement: the answer to request [s] (after the requests [pre]) is the cache-less authenticator's
+    answer against the key set that is or was published at the rendered key-set URL of the request's OWN
+    token, validated with the request's OWN settings — the present key set if the request cannot be served
+    from the cache *)
+Definition judged_statelessly (f1 f2 : bool) (pre : list kstep) (s : kstep) (r : result) : Prop :=
   exists env, In env (worlds pre s) /\ (fresh s = true -> env = s_env s) /\ r = stateless f1 f2 s env.
+
+Theorem history_stateless_gen f1 f2 f4 v h pre s post r :
+  (f4 = false -> uniform_validation v h) ->
+  h = pre ++ s :: post ->
+  nth_error (run_history f1 f2 f4 h) (length pre) = Some r ->
+  judged_statelessly f1 f2 pre s r.
 Proof.
   intros Hv E Hr. unfold run_history in Hr.
-  assert (cache_inv v [] []) as Hinv by (intros url kid k H; discriminate).
-  destruct (run_c_stateless f1 f2 v h [] [] Hv Hinv pre s post E r Hr) as (env & [Hin|[]] & Hfr & Hx).
+  assert (cache_inv f4 v [] []) as Hinv by (intros url kid k H; discriminate).
+  destruct (run_c_stateless f1 f2 f4 v h [] [] Hv Hinv pre s post E r Hr) as (env & [Hin|[]] & Hfr & Hx).
   exists env. split; [exact Hin|]. split; assumption.
 Qed.
 
+(** with the repair of C05-F4 (cached keys are validated with the settings at hand): for every history *)
+Theorem history_stateless_fixed f1 f2 h pre s post r :
+  h = pre ++ s :: post ->
+  nth_error (run_history f1 f2 true h) (length pre) = Some r ->
+  judged_statelessly f1 f2 pre s r.
+Proof. apply (history_stateless_gen f1 f2 true true). discriminate. Qed.
+
+(** the code as it is: for histories whose requests all validate JWK certificates alike ... *)
+Theorem history_stateless f1 f2 v h pre s post r :
+  uniform_validation v h ->
+  h = pre ++ s :: post ->
+  nth_error (run_history f1 f2 false h) (length pre) = Some r ->
+  judged_statelessly f1 f2 pre s r.
+Proof. intro Hv. apply (history_stateless_gen f1 f2 false v). intros _. exact Hv. Qed.
+
+Definition result_eqb (a b : result) : bool :=
+  match a, b with
+  | Accepted s, Accepted s' => String.eqb s s'
+  | Failed e, Failed e' => match e, e' with
+      | ENoCreds, ENoCreds | EParse, EParse | EPayload, EPayload | EComm, EComm | EJwks, EJwks | EKey, EKey
+      | EAlgMismatch, EAlgMismatch | EAlgNotAllowed, EAlgNotAllowed | ESignature, ESignature
+      | EAssertion, EAssertion | EScopes, EScopes | ENoneOfKeys, ENoneOfKeys | ESubject, ESubject
+      | EPanic, EPanic => true
+      | _, _ => false end
+  | _, _ => false
+  end.
+
+Lemma result_eqb_eq a b : result_eqb a b = true -> a = b.
+Proof.
+  destruct a as [s|e], b as [s'|e']; simpl; try discriminate.
+  - intro H. apply String.eqb_eq in H. congruence.
+  - destruct e, e'; try discriminate; reflexivity.
+Qed.
+
+(** C05-F4 shows on exactly the histories on which the unvalidated reuse of a cached key changes an answer *)
+Definition guard_F4 (f1 f2 : bool) (h : list kstep) : bool :=
+  negb (list_eqb result_eqb (run_history f1 f2 false h) (run_history f1 f2 true h)).
+
+(** ... and for all histories on which C05-F4 does not show *)
+Theorem history_stateless_guarded f1 f2 h pre s post r :
+  guard_F4 f1 f2 h = false ->
+  h = pre ++ s :: post ->
+  nth_error (run_history f1 f2 false h) (length pre) = Some r ->
+  judged_statelessly f1 f2 pre s r.
+Proof.
+  intros G E Hr. apply negb_false_iff in G.
+  assert (run_history f1 f2 false h = run_history f1 f2 true h) as Eq.
+  { revert G. generalize (run_history f1 f2 false h) (run_history f1 f2 true h).
+    induction l as [|a l IH]; intros [|b l'] G; simpl in G; try discriminate; [reflexivity|].
+    apply andb_true_iff in G as [G1 G2]. apply result_eqb_eq in G1. rewrite G1, (IH l' G2). reflexivity. }
+  rewrite Eq in Hr. exact (history_stateless_fixed f1 f2 h pre s post r E Hr).
+Qed.
+
+Theorem history_stateless_either f1 f2 h pre s post r :
+  (exists v, uniform_validation v h) \/ guard_F4 f1 f2 h = false ->
+  h = pre ++ s :: post ->
+  nth_error (run_history f1 f2 false h) (length pre) = Some r ->
+  judged_statelessly f1 f2 pre s r.
+Proof.
+  intros [[v Hv]|G] E Hr.
+  - exact (history_stateless f1 f2 v h pre s post r Hv E Hr).
+  - exact (history_stateless_guarded f1 f2 h pre s post r G E Hr).
+Qed.
+
+Lemma judged_statelessly_unfold f1 f2 pre s r :
+  judged_statelessly f1 f2 pre s r <->
+  exists env, In env (s_env s :: map s_env pre) /\ (fresh s = true -> env = s_env s) /\ r = stateless f1 f2 s env.
+Proof. reflexivity. Qed.
+
 (** with key sets that do not change the cache is invisible *)
-Theorem cache_transparent f1 f2 v h pre s post r env0 :
-  (forall s', In s' h -> cf_validate_jwk (s_cf s') = v) ->
+Theorem cache_transparent f1 f2 f4 v h pre s post r env0 :
+  (f4 = false -> uniform_validation v h) ->
   (forall s', In s' h -> s_env s' = env0) ->
   h = pre ++ s :: post ->
-  nth_error (run_history f1 f2 h) (length pre) = Some r ->
+  nth_error (run_history f1 f2 f4 h) (length pre) = Some r ->
   r = stateless f1 f2 s env0.
 Proof.
-  intros Hv He E Hr. destruct (history_stateless f1 f2 v h pre s post r Hv E Hr) as (env & Hin & _ & ->).
+  intros Hv He E Hr. destruct (history_stateless_gen f1 f2 f4 v h pre s post r Hv E Hr) as (env & Hin & _ & ->).
   f_equal. destruct Hin as [<-|Hin].
   - apply He. subst h. apply in_or_app. right. left. reflexivity.
   - apply in_map_iff in Hin as (s' & <- & Hs'). apply He. subst h. apply in_or_app. left. exact Hs'.
@@ -248,21 +369,53 @@ Qed.
 (** soundness and completeness of a history: a subject is created only if the specification accepts the
     token against what is or was published at its own key-set URL (now, if it cannot come from the cache),
     and it is created if the specification accepts it against all of those *)
-Theorem history_spec v h pre s post r :
-  (forall s', In s' h -> cf_validate_jwk (s_cf s') = v) ->
-  h = pre ++ s :: post ->
-  nth_error (run_history true true h) (length pre) = Some r ->
-  sane_clock (s_cf s) (s_now s) -> guard_F3 (s_cred s) = false ->
+Definition meets_spec (pre : list kstep) (s : kstep) (r : result) : Prop :=
   (forall sub, r = Accepted sub ->
      exists env, In env (worlds pre s) /\ (fresh s = true -> env = s_env s) /\ spec_in s env = Some sub) /\
   (forall sub, (forall env, In env (worlds pre s) -> spec_in s env = Some sub) -> r = Accepted sub).
+
+Lemma judged_meets_spec pre s r :
+  sane_clock (s_cf s) (s_now s) -> guard_F3 (s_cred s) = false ->
+  judged_statelessly true true pre s r -> meets_spec pre s r.
 Proof.
-  intros Hv E Hr Hs G.
-  destruct (history_stateless true true v h pre s post r Hv E Hr) as (env & Hin & Hfr & ->). split.
+  intros Hs G (env & Hin & Hfr & ->). split.
   - intros sub Hacc. exists env. split; [exact Hin|]. split; [exact Hfr|].
     rewrite <- stateless_spec by assumption. rewrite Hacc. reflexivity.
   - intros sub Hall. specialize (Hall env Hin). rewrite <- stateless_spec in Hall by assumption.
     destruct (stateless true true s env); simpl in Hall; congruence.
+Qed.
+
+Theorem history_spec h pre s post r :
+  (exists v, uniform_validation v h) \/ guard_F4 true true h = false ->
+  h = pre ++ s :: post ->
+  nth_error (run_history true true false h) (length pre) = Some r ->
+  sane_clock (s_cf s) (s_now s) -> guard_F3 (s_cred s) = false ->
+  meets_spec pre s r.
+Proof.
+  intros [[v Hv]|G] E Hr Hs G3; apply judged_meets_spec; try assumption.
+  - exact (history_stateless true true v h pre s post r Hv E Hr).
+  - exact (history_stateless_guarded true true h pre s post r G E Hr).
+Qed.
+
+Theorem history_spec_fixed h pre s post r :
+  h = pre ++ s :: post ->
+  nth_error (run_history true true true h) (length pre) = Some r ->
+  sane_clock (s_cf s) (s_now s) -> guard_F3 (s_cred s) = false ->
+  meets_spec pre s r.
+Proof.
+  intros E Hr Hs G3. apply judged_meets_spec; try assumption.
+  exact (history_stateless_fixed true true h pre s post r E Hr).
+Qed.
+
+Theorem history_fixed_both h pre s post r :
+  h = pre ++ s :: post ->
+  nth_error (run_history true true true h) (length pre) = Some r ->
+  (judged_statelessly true true pre s r) /\
+  (sane_clock (s_cf s) (s_now s) -> guard_F3 (s_cred s) = false -> meets_spec pre s r).
+Proof.
+  intros E Hr. split.
+  - exact (history_stateless_fixed true true h pre s post r E Hr).
+  - intros Hs G. exact (history_spec_fixed h pre s post r E Hr Hs G).
 Qed.
 
 (* ------------------------------------------------------------------ examples *)
@@ -287,7 +440,7 @@ Close Scope string_scope.
     has been cached, a token naming tenant-b but signed with tenant-a's key is still rejected, and tenant-b's
     own tokens are still accepted (the seeded change C05-1 got both wrong) *)
 Example cache_cross_tenant :
-  run_history true true
+  run_history true true false
     [exc_step true (exc_env 3 4) (exc_tok "tenant-a" "k1" 3);
      exc_step true (exc_env 3 4) (exc_tok "tenant-b" "k1" 3);
      exc_step true (exc_env 3 4) (exc_tok "tenant-b" "k1" 4)]
@@ -297,7 +450,7 @@ Proof. vm_compute. reflexivity. Qed.
 (** what the cache does change: after a rotation the cached key stays in use for its own url and kid (the old
     key's tokens pass, the new key's do not yet) unless the token has no kid or the cache is off *)
 Example cache_rotation :
-  run_history true true
+  run_history true true false
     [exc_step true (exc_env 3 4) (exc_tok "tenant-a" "k1" 3);
      exc_step true (exc_env 4 4) (exc_tok "tenant-a" "k1" 3);
      exc_step true (exc_env 4 4) (exc_tok "tenant-a" "k1" 4);
@@ -305,3 +458,27 @@ Example cache_rotation :
      exc_step false (exc_env 4 4) (exc_tok "tenant-a" "k1" 4)]
   = [Accepted "alice"; Accepted "alice"; Failed ESignature; Accepted "alice"; Accepted "alice"].
 Proof. vm_compute. reflexivity. Qed.
+
+(** C05-F4: two authenticators share the key-set endpoint and the cache; the published key carries a
+    certificate that does not validate.  The strict one (validate_jwk: true) refuses the token, the lax one
+    (validate_jwk: false) accepts it and caches the key, after which the strict one accepts it too —
+    although the specification rejects it in every world of the history.  With the repair it is refused. *)
+Definition exc_bad_env : kenv :=
+  [("tenant-a"%string, (RUp, [ {| k_kid := "k1"; k_alg := "ES256"; k_mat := 3; k_cert := CertBad |} ]))].
+Definition exc_who (strict : bool) : kstep :=
+  {| s_cf := {| cf_proto := cf_proto exc_cf; cf_rule := None; cf_md_issuer := ""; cf_validate_jwk := strict;
+                cf_id_from := "sub"; cf_remote := RUp |};
+     s_cache_on := true; s_templated := true; s_env := exc_bad_env; s_now := secs 1790000000;
+     s_cred := exc_tok "tenant-a" "k1" 3 |}.
+
+Theorem F4_refuted :
+  let h := [exc_who true; exc_who false; exc_who true] in
+  guard_F4 true true h = true /\
+  run_history true true false h = [Failed EKey; Accepted "alice"; Accepted "alice"] /\
+  run_history true true true h = [Failed EKey; Accepted "alice"; Failed EKey] /\
+  ~ meets_spec [exc_who true; exc_who false] (exc_who true) (Accepted "alice").
+Proof.
+  split; [vm_compute; reflexivity|]. split; [vm_compute; reflexivity|]. split; [vm_compute; reflexivity|].
+  intros [S _]. destruct (S "alice"%string eq_refl) as (env & Hin & _ & Hspec).
+  simpl in Hin. destruct Hin as [<-|[<-|[<-|[]]]]; vm_compute in Hspec; discriminate.
+Qed.
